@@ -129,16 +129,16 @@ ADDED = {
     "C12": " Round 5: matrix and estimate are never written in place; every dtype conversion inside the eigenvector routines targets the matrix's dtype. Round 6: relied-upon signature defaults of the matrix routines equal the defaults of the config fields they mirror. Round 7: the column ordering of the QR result is unconditional.",
     "C11": " Round 5: the eigen solver never writes in place into a Tensor argument.",
     "C05": " Round 5: what update_params writes in place is parameter storage and nothing else; the dims a tensor is viewed with before the split are the merge of that tensor's own size. merge_small_dims and compress_list are decided by concrete interpretation (the earlier shape-of-code rules were removed).",
-    "C01": " Added: every parameter group gets its step (the group loop is left only by exhaustion) and owns objects created per group; hyperparameters are read from the group, never from self.defaults; the diagonal flag is exact (no tolerance parameter, callers pass the matrix only); inverse-root selection per tensor order is interpreted on concrete (override, orders, default-rule) cases. Round 5: the blocks are views of the parameters, the masked lists are re-derived on every selector change, and no in-place write inside the preconditioner lists reaches gradient / filtered-gradient / momentum storage. Round 6: a counted step is a taken step (no continue between the counter increment and the group step); view methods write through in the term interpreter.",
-    "C02": " Added: the step counter and grafting state are created per group (an object created before the per-group loop and stored by every iteration is reported). Round 5: change guards of the masked lists and the view rule of the blocks (shared with C04 / C05). Round 6: counted step is taken; a restored checkpoint copies into the tensors the step reads (0-dim and Tensor-subclass state included).",
+    "C01": " Added: every parameter group gets its step (the group loop is left only by exhaustion) and owns objects created per group; hyperparameters are read from the group, never from self.defaults; the diagonal flag is exact (no tolerance parameter, callers pass the matrix only); inverse-root selection per tensor order is interpreted on concrete (override, orders, default-rule) cases. Round 5: the blocks are views of the parameters, the masked lists are re-derived on every selector change, and no in-place write inside the preconditioner lists reaches gradient / filtered-gradient / momentum storage. Round 6: a counted step is a taken step (no continue between the counter increment and the group step); view methods write through in the term interpreter. Round 8: a per-step hyperparameter expression reads no data attribute of self (a constructor-time flag is optimizer-wide, not the group's); every callee of the group loop with a group / state_lists formal gets the loop's own variable.",
+    "C02": " Added: the step counter and grafting state are created per group (an object created before the per-group loop and stored by every iteration is reported). Round 5: change guards of the masked lists and the view rule of the blocks (shared with C04 / C05). Round 6: counted step is taken; a restored checkpoint copies into the tensors the step reads (0-dim and Tensor-subclass state included). Round 8: wiring rule extended to instance flags and to the group / state_lists argument of every helper of the group loop (C02.7).",
     "C03": " Added: the refresh schedule predicate is evaluated region-exhaustively (C03.3); the eigendecomposition returns eigh's outputs with a device move only (C03.9); the diagonal flag is exact. Round 5: inverse-root selection per order by interpretation (C03.10); the gradient lists handed to the preconditioner are read-only inputs. Round 6: the finiteness test dominates the store of the basis; relied-upon signature defaults equal the config defaults. Round 7: the ignored-dims selector is interpreted on concrete cases; the rotation of a block is guarded by the block's own stored eigenvectors; the bias-correction term is recomputed on every call.",
-    "C04": " Added: the group loop of step() is left only by exhaustion; the closure call is never reachable from a gradient-blocking call; a stateful cursor (iterator consumed by next/islice) must not depend on gradient presence. Round 5: per-group objects are fresh per group; the re-mask guard of the grafting list is evaluated over None and one instance of every concrete grafting config class (hierarchy mirrored from the source). Round 7: the global gradient selector depends on a gradient only through `is None`.",
+    "C04": " Added: the group loop of step() is left only by exhaustion; the closure call is never reachable from a gradient-blocking call; a stateful cursor (iterator consumed by next/islice) must not depend on gradient presence. Round 5: per-group objects are fresh per group; the re-mask guard of the grafting list is evaluated over None and one instance of every concrete grafting config class (hierarchy mirrored from the source). Round 7: the global gradient selector depends on a gradient only through `is None`. Round 8: C04.8 - every helper of the group loop (the masking routine included) receives the loop's own param group and state lists; per-step flags read the group only.",
     "C06": " Added: communication-dtype table walked per enum member; the state allocator forwards size and dtype; stateful cursors do not depend on gradient presence. Round 5: the assignment is a function of its arguments only (no carried state). Split and buffer layout of the DDP copy are decided by interpretation in the byte-layout tensor model.",
     "C07": " Added: communication-dtype table, allocation forwarding and mesh-dimension roles of the HSDP distributor. Round 5: merged dims of each recovered tensor block come from that block's own size; each parameter's owners are the assignment cut at its block-index range. Split and buffer layout of the HSDP copy are decided by interpretation in the byte-layout tensor model. The FSDP / HSDP blocking and recovery code is decided per copy (direct rules, recovery semantics by interpretation); only the id helper and the two step-path methods are still compared as text.",
     "C08": " Added: communication-dtype table, allocation forwarding and mesh-dimension roles of the HybridShard distributor. Split and buffer layout of the HybridShard copy are decided by interpretation in the byte-layout tensor model. Round 7: the per-block working lists hold block_info.get_tensor(<state entry>).",
-    "C09": " Added: the tensors the steps work on are the tensors under self.state (strict-polarity points-to: a possibly-copying conversion is reported); per-group objects are created per group; the bias-correction cache is refreshed on every call; writer and reader defaults agree; nested module state is loaded by key / index. The param-group key is decided by concrete interpretation over parameter orders.",
+    "C09": " Added: the tensors the steps work on are the tensors under self.state (strict-polarity points-to: a possibly-copying conversion is reported); per-group objects are created per group; the bias-correction cache is refreshed on every call; writer and reader defaults agree; nested module state is loaded by key / index. The param-group key is decided by concrete interpretation over parameter orders. Round 8: C09.7 - the save path keeps no memo: no attribute of self is both stored into and read on the save path, no save routine is cache-decorated.",
     "C10": " Added: a recurrence the term interpreter cannot follow is an unproved obligation (violation), with uninterpreted fall-backs for attribute reads and element views (an in-place update through a view clobbers the base term). Round 5: the solvers never write in place into a Tensor argument (local may-alias analysis over views and possibly-copying conversions).",
-    "C13": " Added: the tolerance routine is simulated from each call site (caller and callee composed), so the index translation and the tolerance source are checked wherever the interface is drawn; the preconditioner config handed to the lists is the group's. Round 5: the matrix routines never write into the tensors they are handed, so the stored matrix survives a failure mid-routine. Round 6: on the way up from every raise of PreconditionerValueError no handler that could catch it replaces or swallows it. Round 7: the failure counters change only through the tolerance routine.",
+    "C13": " Added: the tolerance routine is simulated from each call site (caller and callee composed), so the index translation and the tolerance source are checked wherever the interface is drawn; the preconditioner config handed to the lists is the group's. Round 5: the matrix routines never write into the tensors they are handed, so the stored matrix survives a failure mid-routine. Round 6: on the way up from every raise of PreconditionerValueError no handler that could catch it replaces or swallows it. Round 7: the failure counters change only through the tolerance routine. Round 8: the index handed to the tolerance routine enumerates the whole masked lists (no filter / slice / offset between the masked lists and enumerate).",
     "C14": " Added: layout of the state mesh (one rank per group with the owner's index; replicate ranks viewed in rows of the communication-group size); the assignment spreads over as many ranks as the gather buffer has segments. Round 5: _split_local_dist_buffers of every copy interpreted on small cases against 'view i lies in its owner's segment at the owner's running offset'. The assignment, the split and the byte layout of the gather buffer of every distributor copy are interpreted on ~1000 concrete cases in a byte-layout tensor model (sv/simtensor.py) against the documented result; these functions are no longer compared as text between the copies. Round 6: the distributor dispatch picks each config class's own distributor (first matching arm over the real MRO).",
     "C15": " Added: inside the recursive helper every narrow is applied to the helper's current block (offsets are block-relative). Round 6: the slab arithmetic follows calls of shared module-level helpers. The recovery of both copies is interpreted in the byte-layout tensor model on small shapes exhaustively (and ranges beyond offset 256, non-flat shards) against the maximal-slab decomposition; the text comparison of the copies and the shape-of-code rule for the three-way case analysis were retired.",
     "C16": " Added: loading copies through detach(); the dispatch is read in if/elif or sequential-return form. Round 5: distinct attributes of an optimizer module hold distinct objects. Round 6: flatten / unflatten are interpreted on nested dictionaries (colliding int/str keys, separators, quotes, empty tensors, leaf-less sub-dictionaries) for injectivity and exact round trip; the load dispatch is evaluated for 0-dim tensors and Tensor-subclass instances; shared flags of state_dict / load_state_dict have equal defaults. Round 7: OptimizerModule.state_dict / load_state_dict are interpreted on an object graph (nested modules, dicts, mixed sequences) for an in-place round trip; no storage take-over on load.",
